@@ -279,6 +279,21 @@ func (cl *CachedLocation) Get(ctx *Context, sys *System, name string, checkExist
 	} else {
 		Log(DEBUG, ctx, "CachedLocation.Get", "name", name, "opening", false)
 		ctx.SetLoc(loc)
+		if checkExists {
+			// The check is not only for whoever loads the
+			// location: the entry could have been opened
+			// without a check (as a parent, or in order to
+			// create the location), and the marker can go away
+			// again (clear, delete).
+			var created bool
+			created, err = locationCreated(ctx, loc)
+			if err == nil && !created {
+				err = NewNotFoundError("%s", name)
+			}
+			if err != nil {
+				Log(WARN, ctx, "CachedLocation.Get", "name", name, "when", "locationCreated", "error", err)
+			}
+		}
 	}
 	failed := nil == cl.Location
 	cl.Unlock()
